@@ -348,7 +348,7 @@ fn split_super(alias: &str) -> (usize, &str) {
 /// The call must resolve to the first existing function in the order the language defines:
 /// absolute path, the caller's own module, a function import, a module-prefix import (`super.`
 /// walking up from the caller's module), and to nothing otherwise - never to anything else.
-pub fn resolve_function_ctx<S: Src, const NS: usize, const IMP: usize>(s: &mut S) {
+pub fn resolve_function_ctx<S: Src, const NS: usize, const IMP: usize, const QSEL: usize>(s: &mut S) {
     let ns: &[&str] = match NS {
         0 => &[],
         1 => &["a"],
@@ -366,16 +366,6 @@ pub fn resolve_function_ctx<S: Src, const NS: usize, const IMP: usize>(s: &mut S
         _ => Some(("f", "super.super.super.f")),
     };
     let mut c = Compiler::new();
-    let mut present = [false; 9];
-    let mut i = 0;
-    while i < FN_NAMES.len() {
-        present[i] = s.bool();
-        if present[i] {
-            let ok = c.verif_add_function(FN_NAMES[i], Handle::from_u32(i as u32 + 1), i as u32);
-            assert!(ok, "harness.add_function");
-        }
-        i += 1;
-    }
     match imp {
         Some((k, v)) => c.verif_set_context(ns, &[(k, v)]),
         None => c.verif_set_context(ns, &[]),
@@ -405,10 +395,40 @@ pub fn resolve_function_ctx<S: Src, const NS: usize, const IMP: usize>(s: &mut S
         }
         qi += 1;
     }
+    // only the functions some rule can look up for one of the called names take part (the others
+    // cannot influence the result); whether each of them exists is solver-chosen
+    let mut present = [false; 9];
+    let mut i = 0;
+    while i < FN_NAMES.len() {
+        let mut relevant = IMP == 5 && i == 8;
+        let mut qi = 0;
+        while qi < QUERIES.len() {
+            let mut r = 0;
+            while r < 4 {
+                if cand[qi][r] == i && (QSEL >= QUERIES.len() || QSEL == qi) {
+                    relevant = true;
+                }
+                r += 1;
+            }
+            qi += 1;
+        }
+        if relevant {
+            present[i] = s.bool();
+            if present[i] {
+                let ok = c.verif_add_function(FN_NAMES[i], Handle::from_u32(i as u32 + 1), i as u32);
+                assert!(ok, "harness.add_function");
+            }
+        }
+        i += 1;
+    }
     // every query in turn (concrete strings: hashing and path building fold to constants; the
     // solver-chosen part is which functions exist)
     let mut q = 0;
     while q < QUERIES.len() {
+        if QSEL < QUERIES.len() && QSEL != q {
+            q += 1;
+            continue;
+        }
         let got = c.verif_resolve_function(QUERIES[q]);
         let mut want: Option<usize> = None;
         let mut r = 0;
@@ -472,79 +492,139 @@ pub fn add_function_duplicates<S: Src>(s: &mut S) {
 
 crate::harnesses! {
     #[kani::stub(std::hash::RandomState::new, crate::stub_random_state)]
+    #[kani::stub(alloc::fmt::format, crate::stub_format)]
+    cx_resolve_q_ns0_imp2_q0 / 12 => resolve_function_ctx::<_, 0, 2, 0>;
+    #[kani::stub(std::hash::RandomState::new, crate::stub_random_state)]
+    #[kani::stub(alloc::fmt::format, crate::stub_format)]
+    cx_resolve_q_ns2_imp5_q2 / 12 => resolve_function_ctx::<_, 2, 5, 2>;
+    #[kani::stub(std::hash::RandomState::new, crate::stub_random_state)]
+    #[kani::stub(alloc::fmt::format, crate::stub_format)]
+    cx_resolve_q_ns2_imp4_q1 / 12 => resolve_function_ctx::<_, 2, 4, 1>;
+    #[kani::stub(std::hash::RandomState::new, crate::stub_random_state)]
+    #[kani::stub(alloc::fmt::format, crate::stub_format)]
+    cx_resolve_q_ns1_imp1_q0 / 12 => resolve_function_ctx::<_, 1, 1, 0>;
+    #[kani::stub(std::hash::RandomState::new, crate::stub_random_state)]
+    #[kani::stub(alloc::fmt::format, crate::stub_format)]
+    cx_resolve_q_ns2_imp3_q0 / 12 => resolve_function_ctx::<_, 2, 3, 0>;
+    #[kani::stub(std::hash::RandomState::new, crate::stub_random_state)]
+    #[kani::stub(alloc::fmt::format, crate::stub_format)]
+    cx_resolve_q_ns1_imp6_q2 / 12 => resolve_function_ctx::<_, 1, 6, 2>;
+    #[kani::stub(std::hash::RandomState::new, crate::stub_random_state)]
+    #[kani::stub(alloc::fmt::format, crate::stub_format)]
+    cx_resolve_q_ns1_imp2_q0 / 12 => resolve_function_ctx::<_, 1, 2, 0>;
+    #[kani::stub(std::hash::RandomState::new, crate::stub_random_state)]
+    #[kani::stub(alloc::fmt::format, crate::stub_format)]
+    cx_resolve_q_ns0_imp1_q0 / 12 => resolve_function_ctx::<_, 0, 1, 0>;
+    #[kani::stub(std::hash::RandomState::new, crate::stub_random_state)]
+    #[kani::stub(alloc::fmt::format, crate::stub_format)]
+    cx_resolve_q_ns2_imp2_q0 / 12 => resolve_function_ctx::<_, 2, 2, 0>;
+    #[kani::stub(std::hash::RandomState::new, crate::stub_random_state)]
+    #[kani::stub(alloc::fmt::format, crate::stub_format)]
+    cx_resolve_q_ns1_imp4_q1 / 12 => resolve_function_ctx::<_, 1, 4, 1>;
+    #[kani::stub(std::hash::RandomState::new, crate::stub_random_state)]
+    #[kani::stub(alloc::fmt::format, crate::stub_format)]
+    cx_resolve_q_ns2_imp1_q0 / 12 => resolve_function_ctx::<_, 2, 1, 0>;
+    #[kani::stub(std::hash::RandomState::new, crate::stub_random_state)]
+    #[kani::stub(alloc::fmt::format, crate::stub_format)]
+    cx_resolve_q_ns0_imp7_q0 / 12 => resolve_function_ctx::<_, 0, 7, 0>;
+    #[kani::stub(std::hash::RandomState::new, crate::stub_random_state)]
+    #[kani::stub(alloc::fmt::format, crate::stub_format)]
+    cx_resolve_q_ns1_imp5_q2 / 12 => resolve_function_ctx::<_, 1, 5, 2>;
+    #[kani::stub(std::hash::RandomState::new, crate::stub_random_state)]
+    #[kani::stub(alloc::fmt::format, crate::stub_format)]
+    cx_resolve_q_ns2_imp6_q2 / 12 => resolve_function_ctx::<_, 2, 6, 2>;
+    #[kani::stub(std::hash::RandomState::new, crate::stub_random_state)]
+    #[kani::stub(alloc::fmt::format, crate::stub_format)]
+    cx_resolve_q_ns2_imp7_q0 / 12 => resolve_function_ctx::<_, 2, 7, 0>;
+    #[kani::stub(std::hash::RandomState::new, crate::stub_random_state)]
+    #[kani::stub(alloc::fmt::format, crate::stub_format)]
+    cx_resolve_q_ns1_imp3_q0 / 12 => resolve_function_ctx::<_, 1, 3, 0>;
+    #[kani::stub(std::hash::RandomState::new, crate::stub_random_state)]
+    #[kani::stub(alloc::fmt::format, crate::stub_format)]
+    cx_resolve_q_ns0_imp0_q0 / 12 => resolve_function_ctx::<_, 0, 0, 0>;
+    #[kani::stub(std::hash::RandomState::new, crate::stub_random_state)]
+    #[kani::stub(alloc::fmt::format, crate::stub_format)]
+    cx_resolve_q_ns2_imp0_q0 / 12 => resolve_function_ctx::<_, 2, 0, 0>;
+    #[kani::stub(std::hash::RandomState::new, crate::stub_random_state)]
+    #[kani::stub(alloc::fmt::format, crate::stub_format)]
+    cx_resolve_q_ns1_imp0_q3 / 12 => resolve_function_ctx::<_, 1, 0, 3>;
+    #[kani::stub(std::hash::RandomState::new, crate::stub_random_state)]
+    #[kani::stub(alloc::fmt::format, crate::stub_format)]
+    cx_resolve_q_ns2_imp0_q3 / 12 => resolve_function_ctx::<_, 2, 0, 3>;
+    #[kani::stub(std::hash::RandomState::new, crate::stub_random_state)]
     cx_add_function_duplicates / 12 => add_function_duplicates;
     #[kani::stub(std::hash::RandomState::new, crate::stub_random_state)]
     #[kani::stub(alloc::fmt::format, crate::stub_format)]
-    cx_resolve_fn_ns0_imp0 / 12 => resolve_function_ctx::<_, 0, 0>;
+    cx_resolve_fn_ns0_imp0 / 12 => resolve_function_ctx::<_, 0, 0, 9>;
     #[kani::stub(std::hash::RandomState::new, crate::stub_random_state)]
     #[kani::stub(alloc::fmt::format, crate::stub_format)]
-    cx_resolve_fn_ns0_imp1 / 12 => resolve_function_ctx::<_, 0, 1>;
+    cx_resolve_fn_ns0_imp1 / 12 => resolve_function_ctx::<_, 0, 1, 9>;
     #[kani::stub(std::hash::RandomState::new, crate::stub_random_state)]
     #[kani::stub(alloc::fmt::format, crate::stub_format)]
-    cx_resolve_fn_ns0_imp2 / 12 => resolve_function_ctx::<_, 0, 2>;
+    cx_resolve_fn_ns0_imp2 / 12 => resolve_function_ctx::<_, 0, 2, 9>;
     #[kani::stub(std::hash::RandomState::new, crate::stub_random_state)]
     #[kani::stub(alloc::fmt::format, crate::stub_format)]
-    cx_resolve_fn_ns0_imp3 / 12 => resolve_function_ctx::<_, 0, 3>;
+    cx_resolve_fn_ns0_imp3 / 12 => resolve_function_ctx::<_, 0, 3, 9>;
     #[kani::stub(std::hash::RandomState::new, crate::stub_random_state)]
     #[kani::stub(alloc::fmt::format, crate::stub_format)]
-    cx_resolve_fn_ns0_imp4 / 12 => resolve_function_ctx::<_, 0, 4>;
+    cx_resolve_fn_ns0_imp4 / 12 => resolve_function_ctx::<_, 0, 4, 9>;
     #[kani::stub(std::hash::RandomState::new, crate::stub_random_state)]
     #[kani::stub(alloc::fmt::format, crate::stub_format)]
-    cx_resolve_fn_ns0_imp5 / 12 => resolve_function_ctx::<_, 0, 5>;
+    cx_resolve_fn_ns0_imp5 / 12 => resolve_function_ctx::<_, 0, 5, 9>;
     #[kani::stub(std::hash::RandomState::new, crate::stub_random_state)]
     #[kani::stub(alloc::fmt::format, crate::stub_format)]
-    cx_resolve_fn_ns0_imp6 / 12 => resolve_function_ctx::<_, 0, 6>;
+    cx_resolve_fn_ns0_imp6 / 12 => resolve_function_ctx::<_, 0, 6, 9>;
     #[kani::stub(std::hash::RandomState::new, crate::stub_random_state)]
     #[kani::stub(alloc::fmt::format, crate::stub_format)]
-    cx_resolve_fn_ns0_imp7 / 12 => resolve_function_ctx::<_, 0, 7>;
+    cx_resolve_fn_ns0_imp7 / 12 => resolve_function_ctx::<_, 0, 7, 9>;
     #[kani::stub(std::hash::RandomState::new, crate::stub_random_state)]
     #[kani::stub(alloc::fmt::format, crate::stub_format)]
-    cx_resolve_fn_ns1_imp0 / 12 => resolve_function_ctx::<_, 1, 0>;
+    cx_resolve_fn_ns1_imp0 / 12 => resolve_function_ctx::<_, 1, 0, 9>;
     #[kani::stub(std::hash::RandomState::new, crate::stub_random_state)]
     #[kani::stub(alloc::fmt::format, crate::stub_format)]
-    cx_resolve_fn_ns1_imp1 / 12 => resolve_function_ctx::<_, 1, 1>;
+    cx_resolve_fn_ns1_imp1 / 12 => resolve_function_ctx::<_, 1, 1, 9>;
     #[kani::stub(std::hash::RandomState::new, crate::stub_random_state)]
     #[kani::stub(alloc::fmt::format, crate::stub_format)]
-    cx_resolve_fn_ns1_imp2 / 12 => resolve_function_ctx::<_, 1, 2>;
+    cx_resolve_fn_ns1_imp2 / 12 => resolve_function_ctx::<_, 1, 2, 9>;
     #[kani::stub(std::hash::RandomState::new, crate::stub_random_state)]
     #[kani::stub(alloc::fmt::format, crate::stub_format)]
-    cx_resolve_fn_ns1_imp3 / 12 => resolve_function_ctx::<_, 1, 3>;
+    cx_resolve_fn_ns1_imp3 / 12 => resolve_function_ctx::<_, 1, 3, 9>;
     #[kani::stub(std::hash::RandomState::new, crate::stub_random_state)]
     #[kani::stub(alloc::fmt::format, crate::stub_format)]
-    cx_resolve_fn_ns1_imp4 / 12 => resolve_function_ctx::<_, 1, 4>;
+    cx_resolve_fn_ns1_imp4 / 12 => resolve_function_ctx::<_, 1, 4, 9>;
     #[kani::stub(std::hash::RandomState::new, crate::stub_random_state)]
     #[kani::stub(alloc::fmt::format, crate::stub_format)]
-    cx_resolve_fn_ns1_imp5 / 12 => resolve_function_ctx::<_, 1, 5>;
+    cx_resolve_fn_ns1_imp5 / 12 => resolve_function_ctx::<_, 1, 5, 9>;
     #[kani::stub(std::hash::RandomState::new, crate::stub_random_state)]
     #[kani::stub(alloc::fmt::format, crate::stub_format)]
-    cx_resolve_fn_ns1_imp6 / 12 => resolve_function_ctx::<_, 1, 6>;
+    cx_resolve_fn_ns1_imp6 / 12 => resolve_function_ctx::<_, 1, 6, 9>;
     #[kani::stub(std::hash::RandomState::new, crate::stub_random_state)]
     #[kani::stub(alloc::fmt::format, crate::stub_format)]
-    cx_resolve_fn_ns1_imp7 / 12 => resolve_function_ctx::<_, 1, 7>;
+    cx_resolve_fn_ns1_imp7 / 12 => resolve_function_ctx::<_, 1, 7, 9>;
     #[kani::stub(std::hash::RandomState::new, crate::stub_random_state)]
     #[kani::stub(alloc::fmt::format, crate::stub_format)]
-    cx_resolve_fn_ns2_imp0 / 12 => resolve_function_ctx::<_, 2, 0>;
+    cx_resolve_fn_ns2_imp0 / 12 => resolve_function_ctx::<_, 2, 0, 9>;
     #[kani::stub(std::hash::RandomState::new, crate::stub_random_state)]
     #[kani::stub(alloc::fmt::format, crate::stub_format)]
-    cx_resolve_fn_ns2_imp1 / 12 => resolve_function_ctx::<_, 2, 1>;
+    cx_resolve_fn_ns2_imp1 / 12 => resolve_function_ctx::<_, 2, 1, 9>;
     #[kani::stub(std::hash::RandomState::new, crate::stub_random_state)]
     #[kani::stub(alloc::fmt::format, crate::stub_format)]
-    cx_resolve_fn_ns2_imp2 / 12 => resolve_function_ctx::<_, 2, 2>;
+    cx_resolve_fn_ns2_imp2 / 12 => resolve_function_ctx::<_, 2, 2, 9>;
     #[kani::stub(std::hash::RandomState::new, crate::stub_random_state)]
     #[kani::stub(alloc::fmt::format, crate::stub_format)]
-    cx_resolve_fn_ns2_imp3 / 12 => resolve_function_ctx::<_, 2, 3>;
+    cx_resolve_fn_ns2_imp3 / 12 => resolve_function_ctx::<_, 2, 3, 9>;
     #[kani::stub(std::hash::RandomState::new, crate::stub_random_state)]
     #[kani::stub(alloc::fmt::format, crate::stub_format)]
-    cx_resolve_fn_ns2_imp4 / 12 => resolve_function_ctx::<_, 2, 4>;
+    cx_resolve_fn_ns2_imp4 / 12 => resolve_function_ctx::<_, 2, 4, 9>;
     #[kani::stub(std::hash::RandomState::new, crate::stub_random_state)]
     #[kani::stub(alloc::fmt::format, crate::stub_format)]
-    cx_resolve_fn_ns2_imp5 / 12 => resolve_function_ctx::<_, 2, 5>;
+    cx_resolve_fn_ns2_imp5 / 12 => resolve_function_ctx::<_, 2, 5, 9>;
     #[kani::stub(std::hash::RandomState::new, crate::stub_random_state)]
     #[kani::stub(alloc::fmt::format, crate::stub_format)]
-    cx_resolve_fn_ns2_imp6 / 12 => resolve_function_ctx::<_, 2, 6>;
+    cx_resolve_fn_ns2_imp6 / 12 => resolve_function_ctx::<_, 2, 6, 9>;
     #[kani::stub(std::hash::RandomState::new, crate::stub_random_state)]
     #[kani::stub(alloc::fmt::format, crate::stub_format)]
-    cx_resolve_fn_ns2_imp7 / 12 => resolve_function_ctx::<_, 2, 7>;
+    cx_resolve_fn_ns2_imp7 / 12 => resolve_function_ctx::<_, 2, 7, 9>;
     #[kani::stub(alloc::fmt::format, crate::stub_format)]
     cx_compile_probe / 12 => compile_probe;
     #[kani::stub(std::hash::RandomState::new, crate::stub_random_state)]
